@@ -83,6 +83,10 @@ var patLists = []patList{
 	{"other-case", []string{"$R/SAFE/*", "$R/safe/A.TXT", "$R/Unsafe/e.txt"}},
 	{"star-suffix", []string{"$R/safe/*b.txt"}},
 	{"two-reversed", []string{"$R/unsafe/e.txt", "$R/safe/sub/*"}},
+	// A pattern is a glob, not a shell word: characters that mean something to a
+	// shell or to os.ExpandEnv stand for themselves (the variables are not set,
+	// so an expansion would turn these into $R/safe/a.txt and $R/safe/*).
+	{"dollar-literal", []string{"$R/${VC17X}safe/a.txt", "$R/safe$VC17Y/*"}},
 }
 
 // The *_stored entries are refreshes of a list that already has contents on
@@ -977,7 +981,7 @@ func main() {
 				"http_requests_attempted":             m.Counters["http_requests_attempted"],
 				"pattern_lists":                       len(patLists),
 				"entry_points":                        entries,
-				"rule":                                "14 pattern lists (empty, dir/*b.txt, an exact path followed by a glob of another directory, patterns differing from the tree only in letter case, exact, dir/*, dir/?.txt, dir/[ab].txt, */a.txt, two patterns, root/*/a.txt, directory itself, *, dir/) x locations x 9 entry points (set_url that disables and re-enables a list already in the configuration without changing its address, add_url, add_url after the list safe/a.txt has been added on the same instance, set_url, set_url disabled-then-enabled, forced refresh handler, periodic refresh tick — the last two with the location already in the configuration, each also with contents of the list already stored from an earlier fetch) x block/allow registry. Locations: 13 targets (10 canary files in safe dir, its sub-directory, unsafe dir, tree root, look-alike 'safe-evil' dir; a missing file; two directories) x dot-dot routes (direct, via safe/, safe/sub/, a FILE safe/a.txt/, unsafe/, safe-evil/, overshoot above /) x departures: segment insertion (/./, //, /x/../), percent-encoding (last separator, dots, first letter), suffix (/, /., //, /x/.., ?x=1), prefix (relative to cwd=safe dir, ./relative, file://, FILE://, file:, file://localhost, ftp://, ftp://host, unix://, http://closed-port, https://, http://, leading space) + 18 stand-alone spellings (empty, NUL bytes, backslashes, ~). non-trivial = case in which a canary file was legitimately read, or a spelling aimed at an existing canary file had to be refused",
+				"rule":                                "15 pattern lists (patterns with $NAME / ${NAME} that must be taken literally, empty, dir/*b.txt, an exact path followed by a glob of another directory, patterns differing from the tree only in letter case, exact, dir/*, dir/?.txt, dir/[ab].txt, */a.txt, two patterns, root/*/a.txt, directory itself, *, dir/) x locations x 9 entry points (set_url that disables and re-enables a list already in the configuration without changing its address, add_url, add_url after the list safe/a.txt has been added on the same instance, set_url, set_url disabled-then-enabled, forced refresh handler, periodic refresh tick — the last two with the location already in the configuration, each also with contents of the list already stored from an earlier fetch) x block/allow registry. Locations: 13 targets (10 canary files in safe dir, its sub-directory, unsafe dir, tree root, look-alike 'safe-evil' dir; a missing file; two directories) x dot-dot routes (direct, via safe/, safe/sub/, a FILE safe/a.txt/, unsafe/, safe-evil/, overshoot above /) x departures: segment insertion (/./, //, /x/../), percent-encoding (last separator, dots, first letter), suffix (/, /., //, /x/.., ?x=1), prefix (relative to cwd=safe dir, ./relative, file://, FILE://, file:, file://localhost, ftp://, ftp://host, unix://, http://closed-port, https://, http://, leading space) + 18 stand-alone spellings (empty, NUL bytes, backslashes, ~). non-trivial = case in which a canary file was legitimately read, or a spelling aimed at an existing canary file had to be refused",
 			}
 		},
 		Assumptions: []string{
